@@ -9,7 +9,7 @@ VERDICT = 'C14_verdict'
 PROPS_FILE = 'theories/Props/C14.v'
 THEOREM = 'C14_exact_dt'
 RULE = ('one SimpleLoop with a scripted time function (dyadic readings, eighths), 1-4 '
-        'WorldHandle doubles with 1-3 scripted processors each; 2-6 operations: '
+        'WorldHandle doubles with 1-3 scripted processors and 1-3 coroutines each; 2-6 operations: '
         'loop.switch from outside and start() calls of 0-12 frames whose scripts are '
         'normal / Quit / quit_loop(default|current) / switch() / bare SwitchWorld / another '
         'exception, issued by any processor position from the processor, an event callback '
